@@ -637,30 +637,39 @@ def check_environment_inputs(ctx):
     same printed text as plain CPython fed those inputs"""
     from pedal.core.commands import clear_report
     from pedal.sandbox import commands as sbx
+    from pedal.core.report import Report
     from pedal.environments.blockpy import BlockPyEnvironment
     from pedal.environments.gradescope import GradeScopeEnvironment
+    from pedal.environments.vpl import VPLEnvironment
+    from pedal.environments.nbgrader import NBGraderEnvironment
     src = "name = input('Name? ')\nage = input('Age? ')\nprint('Hello', name, '(' + age + ')')\n"
-    for env_name, Env in (('blockpy', BlockPyEnvironment), ('gradescope', GradeScopeEnvironment)):
+    for env_name, Env in (('blockpy', BlockPyEnvironment), ('gradescope', GradeScopeEnvironment), ('vpl', VPLEnvironment), ('nbgrader', NBGraderEnvironment)):
         for given in (['Ada Lovelace', '36'], ['Ada', '36'], 'Ada Lovelace', '36', ['  padded  ', 'x y z'], ['only one']):
-            as_list = [given] if isinstance(given, str) else list(given)
-            case = {'scenario': 'environment-inputs', 'environment': env_name, 'inputs': given, 'src': src}
-            try:
-                _, ref_out, ref_exc, _, _ = reference_run(src, as_list)
-                clear_report()
-                with contextlib.redirect_stdout(io.StringIO()):
-                    Env(main_code=src, inputs=given, skip_tifa=True)
-                out = sbx.get_raw_output()
-                e = sbx.get_exception()
-            except BaseException as ex:
-                ctx.violation('C06|environment-with-inputs-raised|%s|%s' % (env_name, type(ex).__name__), case, traceback.format_exc()[-400:])
-                continue
-            ctx.count('environment_runs_with_inputs')
-            ctx.case('envinputs:%s:%r' % (env_name, given))
-            want_lines = [l for l in ref_out.split('\n') if l.startswith('Hello')]
-            got_lines = [l for l in (out or '').split('\n') if l.startswith('Hello')]
-            if e is not None or got_lines != want_lines:
-                ctx.violation('C06|output-differs-with-the-inputs-given-to-the-environment|%s|%s' % (env_name, 'one-string' if isinstance(given, str) else 'list'), case,
-                              'CPython prints %r; through the environment %r (exception %r)' % (want_lines, got_lines, e))
+            for which_report in ('default', 'own'):
+                # (a grader that keeps each submission's report to itself hands the environment that report)
+                as_list = [given] if isinstance(given, str) else list(given)
+                case = {'scenario': 'environment-inputs', 'environment': env_name, 'inputs': given, 'src': src, 'report': which_report}
+                try:
+                    _, ref_out, ref_exc, _, _ = reference_run(src, as_list)
+                    clear_report()
+                    kw = {} if which_report == 'default' else {'report': Report()}
+                    with contextlib.redirect_stdout(io.StringIO()):
+                        Env(main_code=src, inputs=given, skip_tifa=True, skip_run=False, **kw)
+                    out = sbx.get_raw_output(**kw)
+                    e = sbx.get_exception(**kw)
+                    left = sbx.get_input() if kw else []
+                except BaseException as ex:
+                    ctx.violation('C06|environment-with-inputs-raised|%s|%s|%s-report' % (env_name, type(ex).__name__, which_report), case, traceback.format_exc()[-400:])
+                    continue
+                ctx.count('environment_runs_with_inputs')
+                ctx.case('envinputs:%s:%r:%s' % (env_name, given, which_report))
+                want_lines = [l for l in ref_out.split('\n') if l.startswith('Hello')]
+                got_lines = [l for l in (out or '').split('\n') if l.startswith('Hello')]
+                if e is not None or got_lines != want_lines:
+                    ctx.violation('C06|output-differs-with-the-inputs-given-to-the-environment|%s|%s%s' % (env_name, 'one-string' if isinstance(given, str) else 'list', '' if which_report == 'default' else '|own-report'), case,
+                                  'CPython prints %r; through the environment %r (exception %r)' % (want_lines, got_lines, e))
+                if left:
+                    ctx.violation('C06|inputs-given-to-the-environment-land-in-another-reports-queue|%s' % env_name, case, 'the default report\'s sandbox now has %r queued' % (left,))
 
 
 def run(ctx):
